@@ -17,7 +17,7 @@ theorem digitRun_int64_default {c : Cfg} (hc : LikeF64 c) {e f j p : Nat} (h : I
   have hfix : (decide (0 = fmtSemiFixed) || decide (0 = fmtFixed)) = false := by decide
   have hnp : ¬ (p < (e - 1023) * 30103 / 100000 + 1) := by omega
   have hcs : csub 20 52 j = .ok (52 - j) := by simp [csub, hj, pure, Except.pure]
-  unfold digitRun
+  unfold digitRun runNoFraction
   simp only [c1, c2, c3, hb0, ne_eq, not_false_eq_true, if_true, hm, hfs,
     Nat.shiftRight_eq_div_pow, Nat.mul_div_cancel _ (Nat.two_pow_pos 52), hcs, ok_bind, pure_bind, he1, hfix, hint, hnp,
     decide_true, decide_false, Bool.not_true, Bool.and_false, Bool.or_false, Bool.not_false, Bool.true_and, Bool.or_true, Bool.true_or,
